@@ -94,6 +94,15 @@ def _solve_z3(args):
                     continue
                 reason += '; ground(%d): %s' % (rounds, s2.reason_unknown())
                 break
+            if cand is not None and timeout_ms > first:
+                # the instantiation is incomplete: give the full VC the rest
+                # of the budget before calling it a candidate
+                s3 = z3.Solver(ctx=ctx)
+                s3.set('timeout', timeout_ms - first)
+                s3.from_string(text)
+                if str(s3.check()) == 'unsat':
+                    return 'unsat', None, time.time() - t0, \
+                        'second attempt (after a candidate)'
             if cand is not None:
                 return 'candidate', cand[0], time.time() - t0, cand[1]
             if timeout_ms > first:
